@@ -827,34 +827,48 @@ pub fn on_commit(o: &mut Observer, node: usize, b: &Block, d: &Digest, _seq: u64
         return;
     }
     // ---- C05: commit only on a certified consecutive-round 2-chain (or as an ancestor) -------
+    // Judged at the moment of delivery: B itself or a descendant D of B must have a child K with
+    // K.round == D.round + 1 whose digest is certified by a valid QC node has already been shown
+    // (in any message, or assembled from the votes delivered to it). A certificate shown only
+    // afterwards does not count: ancestors are delivered in the same commit call as, and right
+    // before, the block whose 2-chain triggered it, so the certificate is always there first.
     o.ext.children.entry(b.qc.hash.clone()).or_default();
-    let justified = {
-        // Children of B with round B.round + 1 whose digest is certified by a QC shown to node.
-        let kids: Vec<Digest> = o.ext.children.get(d).map(|v| v.iter().filter(|k| o.blocks.get(*k).map_or(false, |r| r.round == b.round + 1)).cloned().collect()).unwrap_or_default();
-        kids.iter().any(|k| o.ext.qc_shown[node].contains(k))
-    };
-    if justified {
-        o.probe("C05.direct-commit");
-        // Every pending commit that is an ancestor of this one is justified by it.
-        let pending = std::mem::take(&mut o.ext.unjustified[node]);
-        let mut anc: HashSet<Digest> = HashSet::new();
-        let mut cur = b.qc.hash.clone();
+    let (direct, justified) = {
+        let mut direct = false;
+        let mut found = false;
+        let mut frontier: Vec<Digest> = vec![d.clone()];
+        let mut seen: HashSet<Digest> = HashSet::new();
         let mut steps = 0;
-        while cur != Digest::default() && steps < 10_000 {
-            anc.insert(cur.clone());
-            cur = match o.blocks.get(&cur) {
-                Some(r) => r.parent.clone(),
-                None => break,
-            };
+        while let Some(cur) = frontier.pop() {
             steps += 1;
-        }
-        for (pd, pr) in pending {
-            if anc.contains(&pd) {
-                o.probe("C05.ancestor-commit");
-            } else {
-                o.ext.unjustified[node].push((pd, pr));
+            if steps > 20_000 || !seen.insert(cur.clone()) {
+                continue;
+            }
+            let cur_round = match o.blocks.get(&cur) {
+                Some(r) => r.round,
+                None => continue,
+            };
+            if let Some(kids) = o.ext.children.get(&cur) {
+                for k in kids {
+                    if o.blocks.get(k).map_or(false, |r| r.round == cur_round + 1) && o.ext.qc_shown[node].contains(k) {
+                        found = true;
+                        if cur == *d {
+                            direct = true;
+                        }
+                    }
+                    frontier.push(k.clone());
+                }
+            }
+            if direct {
+                break;
             }
         }
+        (direct, found)
+    };
+    if direct {
+        o.probe("C05.direct-commit");
+    } else if justified {
+        o.probe("C05.ancestor-commit");
     } else {
         o.ext.unjustified[node].push((d.clone(), b.round));
     }
